@@ -1,6 +1,6 @@
 (** C06 "instance ids strictly increase", part 3: [TT] for the remaining reactor functions, the
     server side and the scheduling round. *)
-From HQ Require Import Base.Prelude Cluster.Types Cluster.Core Cluster.Reactor Cluster.Worker Cluster.Server Cluster.Sys Cluster.ProofsJob Cluster.ProofsMore Cluster.ProofsStep Cluster.BijBase Cluster.BijCore Cluster.BijHq Cluster.BijSt Cluster.BijReact Cluster.InvWBase Cluster.InvWX1 Cluster.InvWX2 Cluster.ExecU2.
+From HQ Require Import Base.Prelude Cluster.Types Cluster.Core Cluster.Reactor Cluster.Worker Cluster.Server Cluster.Sys Cluster.ProofsJob Cluster.ProofsMore Cluster.ProofsStep Cluster.BijBase Cluster.BijCore Cluster.BijHq Cluster.BijSt Cluster.BijReact Cluster.InvWBase Cluster.InvWX1 Cluster.InvWX2 Cluster.NoPanicC4 Cluster.ExecU2.
 From Coq Require Import ZArith Lia Sorting.Sorted.
 Local Open Scope N_scope.
 
@@ -144,25 +144,32 @@ Proof.
   tt_set.
 Qed.
 
-Lemma add_new_tasks_TT ts : forall c ret c' ret', add_new_tasks c ts ret = Ok (c', ret') -> TT T N c c'.
+Lemma add_new_tasks_TT c0 ts : (forall x, find_task (c_tasks c0) x = None -> N x) ->
+  forall c ret c' ret', (forall x, find_task (c_tasks c0) x <> None -> find_task (c_tasks c) x <> None) ->
+  add_new_tasks c ts ret = Ok (c', ret') -> TT T N c c'.
 Proof.
-  induction ts as [|t r IH]; cbn [add_new_tasks]; intros c ret c' ret' H; [inversion H; subst; apply TT_refl|].
+  intros HN. induction ts as [|t r IH]; cbn [add_new_tasks]; intros c ret c' ret' Hdom H; [inversion H; subst; apply TT_refl|].
   destruct (register_deps c (t_id t) (t_deps t) [] 0) as [[c1 kept] count] eqn:Er.
   pose proof (register_deps_TT _ _ _ _ _ _ _ _ Er) as R1.
+  destruct (NoPanicC4.register_deps_frame _ _ _ _ _ _ _ _ Er) as (_ & _ & _ & Est).
   apply bind_ok in H. destruct H as ([c2 rt] & H2 & H).
-  assert (R2 : TT T N c1 c2).
-  { destruct (N.eqb count 0); [|inversion H2; subst; apply TT_refl].
-    apply bind_ok in H2. destruct H2 as ([qs rt'] & ?X & H2). inversion H2; subst. apply TT_tasks; reflexivity. }
-  destruct (find_task (c_tasks c2) (t_id t)); [discriminate|].
-  eapply TT_trans; [exact R1|]. eapply TT_trans; [exact R2|]. eapply TT_trans; [|eapply IH; exact H].
-  tt_set.
+  assert (E2 : c_tasks c2 = c_tasks c1).
+  { destruct (N.eqb count 0); [|inversion H2; subst; reflexivity].
+    apply bind_ok in H2. destruct H2 as ([qs rt'] & ?X & H2). inversion H2; subst. reflexivity. }
+  destruct (find_task (c_tasks c2) (t_id t)) eqn:Ef2; [discriminate|].
+  assert (Hdom2 : forall x, find_task (c_tasks c0) x <> None -> find_task (c_tasks c2) x <> None).
+  { intros x Hx. rewrite E2. intros E. apply (NoPanicC4.state_none _ _ (Est x)) in E. exact (Hdom x Hx E). }
+  eapply TT_trans; [exact R1|]. eapply TT_trans; [apply (TT_tasks c1 c2 E2)|]. eapply TT_trans; [|eapply IH; [|exact H]].
+  - eapply (TT_new T N _ _ (with_state (with_deps t kept) (Waiting count))); [reflexivity|]. cbn [t_id with_state with_deps]. apply HN.
+    destruct (find_task (c_tasks c0) (t_id t)) eqn:E0; [|reflexivity]. exfalso. apply (Hdom2 (t_id t)); [congruence | exact Ef2].
+  - intros x Hx. cbn [c_tasks upd_task with_tasks]. rewrite find_set_task. destruct (tid_eqb x _); [discriminate | apply Hdom2; exact Hx].
 Qed.
 
-Lemma on_new_tasks_TT s ts s' : on_new_tasks s ts = Ok s' -> TT T N (core_of s) (core_of s').
+Lemma on_new_tasks_TT s ts s' : (forall x, find_task (c_tasks (core_of s)) x = None -> N x) -> on_new_tasks s ts = Ok s' -> TT T N (core_of s) (core_of s').
 Proof.
-  intros H. unfold on_new_tasks in H. destruct ts as [|t0 tr] eqn:Et; [inversion H; subst; apply TT_refl|]. rewrite <- Et in *. clear Et.
+  intros HN H. unfold on_new_tasks in H. destruct ts as [|t0 tr] eqn:Et; [inversion H; subst; apply TT_refl|]. rewrite <- Et in *. clear Et.
   apply bind_ok in H. destruct H as ([c' retracted] & Ha & H). apply bind_ok in H. destruct H as (s1 & Hr & H). inversion H; subst s'.
-  eapply TT_trans; [eapply add_new_tasks_TT; exact Ha|].
+  eapply TT_trans; [eapply (add_new_tasks_TT (core_of s)); [exact HN | intros x Hx; exact Hx | exact Ha]|].
   eapply TT_trans; [exact (process_retracted_TT (st_core s c') _ _ Hr)|]. apply TT_tasks; reflexivity.
 Qed.
 
@@ -186,8 +193,10 @@ Proof.
   { destruct (t_state t); try (inversion Hr1; subst; auto; fail).
     destruct (find_redirect _ id); inversion Hr1; subst; auto. }
   destruct E1 as (Et & Ew & [-> | ->]).
-  - tt_set.
-  - tt_set.
+  - eapply (TT_set T N c _ (with_inst t (t_inst t + 1)) t); [cbn [c_tasks upd_task with_tasks with_queues]; rewrite Et; reflexivity
+      | exact (find_in _ _ _ Ht) | reflexivity | cbn; lia | cbn; intros E; lia].
+  - eapply (TT_set T N c _ (with_inst (with_state t (Waiting 0)) (t_inst (with_state t (Waiting 0)) + 1)) t); [cbn [c_tasks upd_task with_tasks with_queues]; rewrite Et; reflexivity
+      | exact (find_in _ _ _ Ht) | reflexivity | cbn; lia | cbn; intros E; lia].
 Qed.
 
 Lemma lost_fail_running_TT l : forall s reason s', lost_fail_running s reason l = Ok s' -> TT T N (core_of s) (core_of s').
@@ -222,7 +231,6 @@ Proof.
   - destruct (find_worker (c_workers (upd_worker c wk')) old) as [wo|] eqn:Hwo; [|discriminate].
     apply bind_ok in H. destruct H as (wo' & ?X & H).
     destruct (find_redirect _ id); [discriminate|]. inversion H; subst.
-    eapply TT_trans; [apply (R_tasks c (upd_worker c wk')); [reflexivity | dm]|].
     tt_set.
   - destruct (find_redirect _ id) as [[ot vo]|].
     + inv_binds H. inversion H; subst. apply TT_tasks; reflexivity.
@@ -256,6 +264,80 @@ Proof.
   apply bind_ok in H. destruct H as (rqd & ?X & H). apply bind_ok in H. destruct H as (q & ?X & H).
   apply bind_ok in H. destruct H as ([tasks q'] & ?X & H). apply bind_ok in H. destruct H as ([c2 m2] & H2 & H).
   eapply TT_trans; [|eapply IH; exact H]. eapply TT_trans; [|eapply rr_loop_TT; exact H2]. apply TT_tasks; reflexivity.
+Qed.
+
+Lemma set_mn_workers_TT l : forall c id first c', set_mn_workers c id l first = Ok c' -> TT T N c c'.
+Proof.
+  induction l as [|w r IH]; cbn [set_mn_workers]; intros c id first c' H; [inversion H; subst; apply TT_refl|].
+  apply bind_ok in H. destruct H as (wk & ?X & H). apply bind_ok in H. destruct H as (wk' & ?X & H).
+  eapply TT_trans; [|eapply IH; exact H]. apply TT_tasks; reflexivity.
+Qed.
+
+Lemma map_mn_sets_TT sets : forall c rq mn c' mn', map_mn_sets c rq mn sets = Ok (c', mn') -> TT T N c c'.
+Proof.
+  induction sets as [|ws r IH]; cbn [map_mn_sets]; intros c rq mn c' mn' H; [inversion H; subst; apply TT_refl|].
+  apply bind_ok in H. destruct H as (q & ?X & H). destruct (q_take_one q) as [[id q']|]; [|discriminate].
+  apply bind_ok in H. destruct H as (c2 & H2 & H). apply bind_ok in H. destruct H as (t & Ht & H). apply get_task_find in Ht.
+  destruct (t_state t) as [n| | | | | |]; try discriminate. destruct n; [|discriminate].
+  eapply TT_trans; [|eapply IH; exact H].
+  eapply TT_trans; [apply (TT_tasks c (with_queues c (set_queue (c_queues c) (N.to_nat rq) q'))); reflexivity|].
+  eapply TT_trans; [eapply set_mn_workers_TT; exact H2|].
+  tt_set.
+Qed.
+
+Lemma map_mn_TT l : forall c mn c' mn', map_mn c mn l = Ok (c', mn') -> TT T N c c'.
+Proof.
+  induction l as [|[[rq v] sets] r IH]; cbn [map_mn]; intros c mn c' mn' H; [inversion H; subst; apply TT_refl|].
+  apply bind_ok in H. destruct H as ([c1 mn1] & H1 & H).
+  eapply TT_trans; [eapply map_mn_sets_TT; exact H1 | eapply IH; exact H].
+Qed.
+
+Lemma prefill_mark_TT l : forall c w c', prefill_mark c w l = Ok c' -> TT T N c c'.
+Proof.
+  induction l as [|id r IH]; cbn [prefill_mark]; intros c w c' H; [inversion H; subst; apply TT_refl|].
+  apply bind_ok in H. destruct H as (t & ?X & H). destruct (negb (is_waiting t)); [discriminate|].
+  apply bind_ok in H. destruct H as (wk & ?X & H). apply bind_ok in H. destruct H as (wk' & ?X & H).
+  eapply TT_trans; [|eapply IH; exact H].
+  tt_set.
+Qed.
+
+Lemma prefill_workers_TT ws : forall c m qi psize c' m', prefill_workers c m qi psize ws = Ok (c', m') -> TT T N c c'.
+Proof.
+  induction ws as [|w r IH]; cbn [prefill_workers]; intros c m qi psize c' m' H; [inversion H; subst; apply TT_refl|].
+  apply bind_ok in H. destruct H as (q & ?X & H). apply bind_ok in H. destruct H as ([ids q'] & ?X & H).
+  apply bind_ok in H. destruct H as (c2 & H2 & H).
+  eapply TT_trans; [|eapply IH; exact H]. eapply TT_trans; [|eapply prefill_mark_TT; exact H2]. apply TT_tasks; reflexivity.
+Qed.
+
+Lemma prefill_queues_TT n : forall c m worder qi top c' m', prefill_queues c m worder qi n top = Ok (c', m') -> TT T N c c'.
+Proof.
+  induction n as [|k IH]; cbn [prefill_queues]; intros c m worder qi top c' m' H; [inversion H; subst; apply TT_refl|].
+  apply bind_ok in H. destruct H as (q & ?X & H).
+  destruct (q_top_priority q) as [tp|]; [|eapply IH; exact H].
+  destruct (negb (Z.eqb tp top)); [eapply IH; exact H|].
+  destruct (N.eqb _ 0); [eapply IH; exact H|].
+  destruct (existsb _ (q_top_task_ids q)).
+  - destruct (forallb _ (q_top_task_ids q)); [eapply IH; exact H | discriminate].
+  - match type of H with match ?ws with [] => _ | _ => _ end = _ => destruct ws eqn:Ews end; [eapply IH; exact H|].
+    destruct (N.eqb _ 0); [eapply IH; exact H|].
+    apply bind_ok in H. destruct H as ([c1 m1] & H1 & H).
+    eapply TT_trans; [eapply prefill_workers_TT; exact H1 | eapply IH; exact H].
+Qed.
+
+
+Lemma run_scheduling_TT s sol s' : run_scheduling s sol = Ok s' -> TT T N (core_of s) (core_of s').
+Proof.
+  unfold run_scheduling. intros H. destruct (negb (perm_of_set _ _)); [discriminate|].
+  apply bind_ok in H. destruct H as ([c1 m1] & H1 & H).
+  apply bind_ok in H. destruct H as ([c2 mn] & H2 & H).
+  apply bind_ok in H. destruct H as ([c3 m3] & H3 & H).
+  apply bind_ok in H. destruct H as (s1 & H4 & H).
+  apply bind_ok in H. destruct H as (s2 & H5 & H). inversion H; subst s'.
+  assert (R3 : TT T N c2 c3).
+  { destruct (queues_top_priority (c_queues c2)); [|inversion H3; subst; apply TT_refl]. eapply prefill_queues_TT; exact H3. }
+  assert (Ec : core_of s2 = c3) by (rewrite (send_mn_core _ _ _ H5), (send_mapping_core _ _ _ H4); reflexivity).
+  eapply TT_trans; [eapply map_sn_TT; exact H1|]. eapply TT_trans; [eapply map_mn_TT; exact H2|]. eapply TT_trans; [exact R3|].
+  apply TT_tasks. cbn. rewrite Ec. reflexivity.
 Qed.
 
 End Pass.
